@@ -14,7 +14,7 @@ use crate::Cfg;
 pub const FLOORS: &[&str] = &[
     "at_ffff:continue", "at_ffff:step", "at_ffff:si", "at_ffff:so", "below_origin:resume",
     "above_fe00:resume", "parked_on_halt:resume", "ended_by_eof", "bound_checked", "executed_at_fdff",
-    "halt_planted_at_breakpoint",
+    "halt_planted_at_breakpoint", "breakpoints_removed_after_several_hits",
 ];
 
 pub fn run(cfg: &Cfg, col: &mut Collector) {
@@ -63,6 +63,27 @@ fn one_case(seed: u64, i: u64) -> CaseOut {
             2 => Cmd::BreakAdd(img.origin().wrapping_add(rng.below(img.words.len() as u64 + 1) as u16)),
             _ => Cmd::Continue,
         });
+    }
+    if rng.chance(1, 5) {
+        // several breakpoints hit one after the other, then most of them removed in one go, then on: whatever
+        // the list looked like when the last one fired, resuming ends
+        let n = img.words.len().max(2) as u64;
+        let k = 3 + rng.below(4);
+        let mut addrs: Vec<u16> = (0..k).map(|_| img.origin().wrapping_add(rng.below(n.min(12)) as u16)).collect();
+        addrs.sort_unstable();
+        addrs.dedup();
+        for a in &addrs {
+            cmds.push(Cmd::BreakAdd(*a));
+        }
+        for _ in 0..addrs.len() {
+            cmds.push(Cmd::Continue);
+        }
+        let mut gone = addrs.clone();
+        while gone.len() > 1 && rng.chance(3, 4) {
+            let a = gone.remove(rng.below(gone.len() as u64 - 1) as usize);
+            cmds.push(Cmd::BreakRemove(a));
+        }
+        cmds.push(if rng.bool() { Cmd::Continue } else { Cmd::Step });
     }
     if rng.chance(1, 4) {
         // pause at a run-time breakpoint, plant a HALT under the PC, then try to resume
@@ -140,6 +161,12 @@ fn one_case(seed: u64, i: u64) -> CaseOut {
             if w == 0xF025 {
                 out.class("parked_on_halt:resume");
             }
+        }
+    }
+    if cmds.iter().filter(|c| matches!(c, Cmd::BreakRemove(_))).count() >= 2 {
+        let hits = sess.snaps.iter().filter(|s| s.bps.iter().any(|b| b.0 == s.pc)).count();
+        if hits >= 3 {
+            out.class("breakpoints_removed_after_several_hits");
         }
     }
     if cmds.iter().any(|c| matches!(c, Cmd::MoveMemLoc(..))) {
